@@ -400,8 +400,8 @@ func sources(v ssa.Value, o deriveOpts) []ssa.Value {
 				// load: from an Alloc → everything stored there
 				switch a := x.X.(type) {
 				case *ssa.Alloc:
-					st := reachingStores(x, a)
-					if len(st) == 0 {
+					st, zero := reachingStores(x, a)
+					if len(st) == 0 || zero {
 						leaves = append(leaves, v)
 					}
 					for _, s := range st {
@@ -449,7 +449,7 @@ func sources(v ssa.Value, o deriveOpts) []ssa.Value {
 // capture the cell are added flow-insensitively. When some path reaches the
 // function entry without a store the zero value is represented by nil being
 // absent (callers treat "no store" as a leaf).
-func reachingStores(load *ssa.UnOp, a *ssa.Alloc) []ssa.Value {
+func reachingStores(load *ssa.UnOp, a *ssa.Alloc) (vals []ssa.Value, zero bool) {
 	var out []ssa.Value
 	add := func(v ssa.Value) {
 		for _, o := range out {
@@ -461,7 +461,7 @@ func reachingStores(load *ssa.UnOp, a *ssa.Alloc) []ssa.Value {
 	}
 	if load.Parent() != a.Parent() {
 		// load inside a closure: flow-insensitive
-		return storesToDeep(a)
+		return storesToDeep(a), false
 	}
 	seen := map[*ssa.BasicBlock]bool{}
 	var back func(b *ssa.BasicBlock, from int)
@@ -471,6 +471,9 @@ func reachingStores(load *ssa.UnOp, a *ssa.Alloc) []ssa.Value {
 				add(s.Val)
 				return
 			}
+		}
+		if b.Index == 0 {
+			zero = true
 		}
 		for _, p := range b.Preds {
 			if seen[p] {
@@ -497,7 +500,7 @@ func reachingStores(load *ssa.UnOp, a *ssa.Alloc) []ssa.Value {
 			}
 		}
 	}
-	return out
+	return out, zero
 }
 
 func storesToDeep(a *ssa.Alloc) []ssa.Value {
@@ -765,4 +768,98 @@ func outermost(f *ssa.Function) *ssa.Function {
 		f = f.Parent()
 	}
 	return f
+}
+
+// ---------------------------------------------------------------------------
+// boolean branch helpers
+
+// boolTest decodes the condition of an If down to a non-negated value and
+// tells which successor is taken when that value is true.
+func boolTest(ifi *ssa.If) (v ssa.Value, trueSucc int) {
+	cond := ifi.Cond
+	trueSucc = 0
+	for {
+		if u, ok := cond.(*ssa.UnOp); ok && u.Op == token.NOT {
+			cond = u.X
+			trueSucc = 1 - trueSucc
+			continue
+		}
+		return cond, trueSucc
+	}
+}
+
+// onBoolSide reports whether `at` executes only after a branch on a value
+// satisfying pred took the side `want`.
+func onBoolSide(at ssa.Instruction, want bool, pred func(ssa.Value) bool) bool {
+	f := at.Parent()
+	for _, b := range f.Blocks {
+		if len(b.Instrs) == 0 {
+			continue
+		}
+		ifi, ok := b.Instrs[len(b.Instrs)-1].(*ssa.If)
+		if !ok {
+			continue
+		}
+		v, ts := boolTest(ifi)
+		if !pred(v) {
+			continue
+		}
+		k := ts
+		if !want {
+			k = 1 - ts
+		}
+		if edgeDominates(b, k, at.Block()) {
+			return true
+		}
+	}
+	return false
+}
+
+// isCallValue: v is the (single) result of a call whose callee full name
+// satisfies pred.
+func isCallValue(v ssa.Value, pred func(cc *ssa.CallCommon) bool) bool {
+	call, ok := v.(*ssa.Call)
+	return ok && pred(&call.Call)
+}
+
+// extractOf: v is `extract call #idx`.
+func extractOf(v ssa.Value, idx int) (*ssa.Call, bool) {
+	ex, ok := v.(*ssa.Extract)
+	if !ok || ex.Index != idx {
+		return nil, false
+	}
+	call, ok := ex.Tuple.(*ssa.Call)
+	return call, ok
+}
+
+// errResultOf returns the value holding the error result of a call (the call
+// itself when it returns a single error, or the extract of the last result).
+func errResultsOf(call *ssa.Call) []ssa.Value {
+	var out []ssa.Value
+	sig := call.Call.Signature()
+	n := sig.Results().Len()
+	if n == 0 {
+		return nil
+	}
+	if n == 1 {
+		if isErrorType(sig.Results().At(0).Type()) {
+			out = append(out, call)
+		}
+		return out
+	}
+	for _, r := range *call.Referrers() {
+		if ex, ok := r.(*ssa.Extract); ok && isErrorType(sig.Results().At(ex.Index).Type()) {
+			out = append(out, ex)
+		}
+	}
+	return out
+}
+
+// constBool
+func constBool(v ssa.Value) (bool, bool) {
+	c, ok := v.(*ssa.Const)
+	if !ok || c.Value == nil || c.Value.Kind() != constant.Bool {
+		return false, false
+	}
+	return constant.BoolVal(c.Value), true
 }
